@@ -101,7 +101,7 @@ T_SError ==
           IN Ev.res = "Ok" /\ Signed(r) /\ macs' = r.tbl /\ fl' = r.msg
      ELSE LET code == CASE g.err = "BADSIG" -> BADSIG [] g.err = "BADKEY" -> BADKEY
                         [] g.err = "BADTRUNC" -> BADTRUNC [] OTHER -> FORMERR
-              r == ServerErrUnsignedStep(g.req, MkMsg(Ev.pre), code)
+              r == ServerErrUnsignedStep(g.req, MkMsg(Ev.pre), code, Ev.rtime, Ev.rfudge)
           IN /\ macs' = macs
              /\ IF r.tsig THEN Ev.res = "Ok" /\ Wire(r.msg) = Ev.wire /\ fl' = r.msg
                 ELSE Ev.res = (IF r.panic THEN "panic" ELSE "NoPanic") /\ fl' = fl
